@@ -187,6 +187,79 @@ def mutants_of(rel, text):
     return out
 
 
+def mutants2_of(rel, text):
+    """second set: a name used where another local of the same function was meant, a whole `if` dropped, a sort turned
+    round, a range cut short, an element dropped from a tuple / list display"""
+    import re
+    tree = ast.parse(text)
+    off = Offsets(text)
+    out = []
+
+    def add(a, b, new, op, node):
+        old = off.seg(a, b)
+        if old != new:
+            out.append({"file": rel, "start": a, "end": b, "new": new, "op": op, "line": node.lineno, "old": old[:80]})
+    if rel.endswith(("element_attributes.py", "graph_attributes.py")):
+        return out
+
+    def kind_of(name):
+        parts = name.strip("_").split("_")
+        return parts[-1] if len(parts) > 1 else ""
+    for fn in [n for n in ast.walk(tree) if isinstance(n, (ast.FunctionDef,))]:
+        own = [n for n in ast.walk(fn)]
+        stores = {}
+        for n in own:
+            if isinstance(n, ast.Name) and isinstance(n.ctx, ast.Store):
+                stores.setdefault(n.id, n.lineno)
+        for a in fn.args.args + fn.args.kwonlyargs:
+            stores.setdefault(a.arg, fn.lineno)
+        names = sorted(stores)
+        for n in own:
+            if isinstance(n, ast.Name) and isinstance(n.ctx, ast.Load) and n.id in stores:
+                for other in names:
+                    if other == n.id or other in ("self", "cls"):
+                        continue
+                    same_kind = kind_of(other) and kind_of(other) == kind_of(n.id)
+                    numbered = re.sub(r"\d+", "#", other) == re.sub(r"\d+", "#", n.id)
+                    if (same_kind or numbered) and stores[other] <= n.lineno:
+                        a_, b_ = off.span(n)
+                        add(a_, b_, other, "name-swap", n)
+            elif isinstance(n, ast.If) and not n.orelse and n is not fn:
+                a_, b_ = off.span(n)
+                add(a_, b_, "pass", "if-dropped", n)
+            elif isinstance(n, ast.Call) and isinstance(n.func, ast.Name) and n.func.id == "sorted":
+                rv = next((k for k in n.keywords if k.arg == "reverse"), None)
+                if rv is None:
+                    b_ = off.at(n.end_lineno, n.end_col_offset) - 1
+                    inner = off.seg(off.at(n.lineno, n.col_offset), b_).rstrip()
+                    sep = "" if inner.endswith(",") else ", "
+                    add(b_, b_ + 1, sep + "reverse=True)", "sort-reversed", n)
+                elif isinstance(rv.value, ast.Constant):
+                    a_, b_ = off.span(rv.value)
+                    add(a_, b_, str(not rv.value.value), "sort-reversed", n)
+            elif isinstance(n, ast.Call) and isinstance(n.func, ast.Name) and n.func.id == "range" and n.args:
+                a_, b_ = off.span(n.args[-1] if len(n.args) < 3 else n.args[1])
+                add(a_, b_, f"({off.seg(a_, b_)}) - 1", "range-short", n)
+                if len(n.args) == 1:
+                    add(a_, a_, "1, ", "range-from-1", n)
+            elif isinstance(n, (ast.Tuple, ast.List)) and isinstance(n.ctx, ast.Load) and 2 <= len(n.elts) <= 4 and not any(isinstance(e, ast.Starred) for e in n.elts):
+                e0, e1 = n.elts[-2], n.elts[-1]
+                a_ = off.at(e0.end_lineno, e0.end_col_offset)
+                b_ = off.at(e1.end_lineno, e1.end_col_offset)
+                add(a_, b_, "", "element-dropped", n)
+            elif isinstance(n, ast.Call) and isinstance(n.func, ast.Attribute) and n.func.attr == "split" and len(n.args) == 1 and isinstance(n.args[0], ast.Constant) and n.args[0].value == " ":
+                a_, b_ = off.span(n.args[0])
+                add(a_, b_, "", "split-any-blank", n)
+    # the same statement can be reached through nested functions twice
+    seen, uniq = set(), []
+    for m in out:
+        k = (m["start"], m["end"], m["new"])
+        if k not in seen:
+            seen.add(k)
+            uniq.append(m)
+    return uniq
+
+
 def apply(text, m):
     b = text.encode()
     return (b[:m["start"]] + m["new"].encode() + b[m["end"]:]).decode()
@@ -197,13 +270,14 @@ def main():
     i = 0
     for rel in FILES:
         text = open(os.path.join(root, rel)).read()
-        for m in mutants_of(rel, text):
+        second = "--second" in sys.argv
+        for m in (mutants2_of(rel, text) if second else mutants_of(rel, text)):
             new_text = apply(text, m)
             try:
                 compile(new_text, rel, "exec")
             except SyntaxError:
                 continue
-            m["id"] = f"M{i:04d}"
+            m["id"] = f"{'N' if second else 'M'}{i:04d}"
             i += 1
             print(json.dumps(m))
 
